@@ -1,10 +1,13 @@
 package symgo
 
 import (
+	"crypto/sha256"
 	"fmt"
 	"go/token"
 	"go/types"
 	"strings"
+
+	"golang.org/x/net/publicsuffix"
 )
 
 func initAtomicExternals() {
@@ -218,7 +221,7 @@ func initHarnessExternals() {
 			return nil
 		},
 		"verifRunAll": func(fr *frame, a []value) value { return fr.i.runAll() },
-		"verifYield":  func(fr *frame, a []value) value { fr.i.yield(); return nil },
+		"verifYield":  func(fr *frame, a []value) value { fr.i.yieldAt(true); return nil },
 		"verifStop": func(fr *frame, a []value) value {
 			panic(pathAbort{kind: abortDone})
 		},
@@ -423,4 +426,74 @@ func (i *interpreter) hashOf(s []value) value {
 	}
 	i.hashCalls = append(i.hashCalls, hashCall{stream: s, h: h})
 	return &Sym{h}
+}
+
+// ---- crypto/sha256: real digest for concrete input; for symbolic input an
+// uninterpreted function of the input bytes (consistent and collision-free).
+
+type ufCall struct {
+	in  []value
+	out []*Term
+}
+
+func init() {
+	externals["crypto/sha256.Sum256"] = func(fr *frame, a []value) value {
+		i := fr.i
+		in := a[0].([]value)
+		conc := make([]byte, len(in))
+		allc := true
+		for k, b := range in {
+			c, ok := b.(uint8)
+			if !ok {
+				allc = false
+				break
+			}
+			conc[k] = c
+		}
+		out := make(array, 32)
+		if allc {
+			sum := sha256.Sum256(conc)
+			for k := range out {
+				out[k] = sum[k]
+			}
+			return out
+		}
+		call := ufCall{in: append([]value(nil), in...)}
+		for k := 0; k < 32; k++ {
+			t := i.tc.Var(fmt.Sprintf("v_sha%d_%d", len(i.shaCalls), k), SBV8)
+			call.out = append(call.out, t)
+			out[k] = &Sym{t}
+		}
+		me := mkStr(call.in)
+		for _, prev := range i.shaCalls {
+			var same value = false
+			if len(prev.in) == len(call.in) {
+				same = i.strEq(mkStr(prev.in), me)
+			}
+			var eqs []*Term
+			for k := range call.out {
+				eqs = append(eqs, i.tc.Mk("=", SBool, prev.out[k], call.out[k]))
+			}
+			eqOut := i.tc.Mk("and", SBool, eqs...)
+			st := i.term(same)
+			i.pcAssert(i.tc.Mk("or", SBool, i.tc.Mk("not", SBool, st), eqOut))
+			i.pcAssert(i.tc.Mk("or", SBool, st, i.tc.Mk("not", SBool, eqOut)))
+		}
+		i.shaCalls = append(i.shaCalls, call)
+		return out
+	}
+}
+
+// ---- golang.org/x/net/publicsuffix: the table is embedded with go:embed, which the
+// SSA form does not carry; the real library is called for concrete names.
+
+func init() {
+	externals["golang.org/x/net/publicsuffix.PublicSuffix"] = func(fr *frame, a []value) value {
+		d, ok := a[0].(string)
+		if !ok {
+			panic(pathAbort{kind: abortUnsupported, msg: "publicsuffix.PublicSuffix of a symbolic name"})
+		}
+		ps, icann := publicsuffix.PublicSuffix(d)
+		return tuple{ps, icann}
+	}
 }
